@@ -6587,6 +6587,11 @@ fn regular_serialize_vec<T: Serialize>(
     let l = items.len();
     serializer.write_usize(l)?;
     if std::mem::size_of::<T>() == 0 {
+        // Zero-sized in memory does not imply zero bytes on disk: a single-variant enum
+        // is a ZST, but still serializes its discriminant.
+        for item in items {
+            item.serialize(serializer)?;
+        }
         return Ok(());
     }
 
